@@ -16,30 +16,42 @@ Model/Glob.vos Model/Glob.vok Model/Glob.required_vos: Model/Glob.v Base/Bytes.v
 Model/Strings.vo Model/Strings.glob Model/Strings.v.beautified Model/Strings.required_vo: Model/Strings.v Base/Bytes.vo Model/Resp.vo Model/Types.vo Model/Glob.vo
 Model/Strings.vio: Model/Strings.v Base/Bytes.vio Model/Resp.vio Model/Types.vio Model/Glob.vio
 Model/Strings.vos Model/Strings.vok Model/Strings.required_vos: Model/Strings.v Base/Bytes.vos Model/Resp.vos Model/Types.vos Model/Glob.vos
-Model/Lists.vo Model/Lists.glob Model/Lists.v.beautified Model/Lists.required_vo: Model/Lists.v Base/Bytes.vo Model/Resp.vo Model/Types.vo Model/Strings.vo
-Model/Lists.vio: Model/Lists.v Base/Bytes.vio Model/Resp.vio Model/Types.vio Model/Strings.vio
-Model/Lists.vos Model/Lists.vok Model/Lists.required_vos: Model/Lists.v Base/Bytes.vos Model/Resp.vos Model/Types.vos Model/Strings.vos
+Model/Lists.vo Model/Lists.glob Model/Lists.v.beautified Model/Lists.required_vo: Model/Lists.v Base/Bytes.vo Model/Resp.vo Model/Types.vo
+Model/Lists.vio: Model/Lists.v Base/Bytes.vio Model/Resp.vio Model/Types.vio
+Model/Lists.vos Model/Lists.vok Model/Lists.required_vos: Model/Lists.v Base/Bytes.vos Model/Resp.vos Model/Types.vos
 Model/ZSets.vo Model/ZSets.glob Model/ZSets.v.beautified Model/ZSets.required_vo: Model/ZSets.v Base/Bytes.vo Model/Resp.vo Model/Types.vo
 Model/ZSets.vio: Model/ZSets.v Base/Bytes.vio Model/Resp.vio Model/Types.vio
 Model/ZSets.vos Model/ZSets.vok Model/ZSets.required_vos: Model/ZSets.v Base/Bytes.vos Model/Resp.vos Model/Types.vos
 Model/Streams.vo Model/Streams.glob Model/Streams.v.beautified Model/Streams.required_vo: Model/Streams.v Base/Bytes.vo Model/Resp.vo Model/Types.vo
 Model/Streams.vio: Model/Streams.v Base/Bytes.vio Model/Resp.vio Model/Types.vio
 Model/Streams.vos Model/Streams.vok Model/Streams.required_vos: Model/Streams.v Base/Bytes.vos Model/Resp.vos Model/Types.vos
-Model/Server.vo Model/Server.glob Model/Server.v.beautified Model/Server.required_vo: Model/Server.v Base/Bytes.vo Generated.vo Model/Resp.vo Model/Types.vo Model/Glob.vo Model/Strings.vo Model/Lists.vo Model/ZSets.vo Model/Streams.vo
-Model/Server.vio: Model/Server.v Base/Bytes.vio Generated.vio Model/Resp.vio Model/Types.vio Model/Glob.vio Model/Strings.vio Model/Lists.vio Model/ZSets.vio Model/Streams.vio
-Model/Server.vos Model/Server.vok Model/Server.required_vos: Model/Server.v Base/Bytes.vos Generated.vos Model/Resp.vos Model/Types.vos Model/Glob.vos Model/Strings.vos Model/Lists.vos Model/ZSets.vos Model/Streams.vos
+Model/PubSub.vo Model/PubSub.glob Model/PubSub.v.beautified Model/PubSub.required_vo: Model/PubSub.v Base/Bytes.vo Model/Types.vo
+Model/PubSub.vio: Model/PubSub.v Base/Bytes.vio Model/Types.vio
+Model/PubSub.vos Model/PubSub.vok Model/PubSub.required_vos: Model/PubSub.v Base/Bytes.vos Model/Types.vos
+Model/RunPubSub.vo Model/RunPubSub.glob Model/RunPubSub.v.beautified Model/RunPubSub.required_vo: Model/RunPubSub.v Base/Bytes.vo Model/Types.vo Model/PubSub.vo
+Model/RunPubSub.vio: Model/RunPubSub.v Base/Bytes.vio Model/Types.vio Model/PubSub.vio
+Model/RunPubSub.vos Model/RunPubSub.vok Model/RunPubSub.required_vos: Model/RunPubSub.v Base/Bytes.vos Model/Types.vos Model/PubSub.vos
+Model/Scan.vo Model/Scan.glob Model/Scan.v.beautified Model/Scan.required_vo: Model/Scan.v Base/Bytes.vo Model/Resp.vo Model/Types.vo Model/Glob.vo Model/Strings.vo
+Model/Scan.vio: Model/Scan.v Base/Bytes.vio Model/Resp.vio Model/Types.vio Model/Glob.vio Model/Strings.vio
+Model/Scan.vos Model/Scan.vok Model/Scan.required_vos: Model/Scan.v Base/Bytes.vos Model/Resp.vos Model/Types.vos Model/Glob.vos Model/Strings.vos
+Model/Server.vo Model/Server.glob Model/Server.v.beautified Model/Server.required_vo: Model/Server.v Base/Bytes.vo Generated.vo Model/Resp.vo Model/Types.vo Model/Glob.vo Model/Strings.vo Model/Lists.vo Model/ZSets.vo Model/Streams.vo Model/Scan.vo
+Model/Server.vio: Model/Server.v Base/Bytes.vio Generated.vio Model/Resp.vio Model/Types.vio Model/Glob.vio Model/Strings.vio Model/Lists.vio Model/ZSets.vio Model/Streams.vio Model/Scan.vio
+Model/Server.vos Model/Server.vok Model/Server.required_vos: Model/Server.v Base/Bytes.vos Generated.vos Model/Resp.vos Model/Types.vos Model/Glob.vos Model/Strings.vos Model/Lists.vos Model/ZSets.vos Model/Streams.vos Model/Scan.vos
+Model/Conn.vo Model/Conn.glob Model/Conn.v.beautified Model/Conn.required_vo: Model/Conn.v Base/Bytes.vo Generated.vo Model/Resp.vo Model/Types.vo Model/Server.vo
+Model/Conn.vio: Model/Conn.v Base/Bytes.vio Generated.vio Model/Resp.vio Model/Types.vio Model/Server.vio
+Model/Conn.vos Model/Conn.vok Model/Conn.required_vos: Model/Conn.v Base/Bytes.vos Generated.vos Model/Resp.vos Model/Types.vos Model/Server.vos
 Model/RunBase.vo Model/RunBase.glob Model/RunBase.v.beautified Model/RunBase.required_vo: Model/RunBase.v Base/Bytes.vo Model/Resp.vo
 Model/RunBase.vio: Model/RunBase.v Base/Bytes.vio Model/Resp.vio
 Model/RunBase.vos Model/RunBase.vok Model/RunBase.required_vos: Model/RunBase.v Base/Bytes.vos Model/Resp.vos
-Model/RunSrv.vo Model/RunSrv.glob Model/RunSrv.v.beautified Model/RunSrv.required_vo: Model/RunSrv.v Base/Bytes.vo Model/Resp.vo Model/Types.vo Model/Server.vo Model/RunBase.vo
-Model/RunSrv.vio: Model/RunSrv.v Base/Bytes.vio Model/Resp.vio Model/Types.vio Model/Server.vio Model/RunBase.vio
-Model/RunSrv.vos Model/RunSrv.vok Model/RunSrv.required_vos: Model/RunSrv.v Base/Bytes.vos Model/Resp.vos Model/Types.vos Model/Server.vos Model/RunBase.vos
-Model/Run.vo Model/Run.glob Model/Run.v.beautified Model/Run.required_vo: Model/Run.v Base/Bytes.vo Model/Resp.vo Model/RunBase.vo Model/RunSrv.vo
-Model/Run.vio: Model/Run.v Base/Bytes.vio Model/Resp.vio Model/RunBase.vio Model/RunSrv.vio
-Model/Run.vos Model/Run.vok Model/Run.required_vos: Model/Run.v Base/Bytes.vos Model/Resp.vos Model/RunBase.vos Model/RunSrv.vos
-Spec/Collections.vo Spec/Collections.glob Spec/Collections.v.beautified Spec/Collections.required_vo: Spec/Collections.v Base/Bytes.vo Model/Resp.vo Model/Types.vo
-Spec/Collections.vio: Spec/Collections.v Base/Bytes.vio Model/Resp.vio Model/Types.vio
-Spec/Collections.vos Spec/Collections.vok Spec/Collections.required_vos: Spec/Collections.v Base/Bytes.vos Model/Resp.vos Model/Types.vos
+Model/RunSrv.vo Model/RunSrv.glob Model/RunSrv.v.beautified Model/RunSrv.required_vo: Model/RunSrv.v Base/Bytes.vo Model/Resp.vo Model/Types.vo Model/Server.vo Model/Conn.vo Model/RunBase.vo
+Model/RunSrv.vio: Model/RunSrv.v Base/Bytes.vio Model/Resp.vio Model/Types.vio Model/Server.vio Model/Conn.vio Model/RunBase.vio
+Model/RunSrv.vos Model/RunSrv.vok Model/RunSrv.required_vos: Model/RunSrv.v Base/Bytes.vos Model/Resp.vos Model/Types.vos Model/Server.vos Model/Conn.vos Model/RunBase.vos
+Model/RunScan.vo Model/RunScan.glob Model/RunScan.v.beautified Model/RunScan.required_vo: Model/RunScan.v Base/Bytes.vo Model/Resp.vo Model/Types.vo Model/Strings.vo Model/Scan.vo Model/Server.vo Model/RunBase.vo Model/RunSrv.vo Model/RunPubSub.vo
+Model/RunScan.vio: Model/RunScan.v Base/Bytes.vio Model/Resp.vio Model/Types.vio Model/Strings.vio Model/Scan.vio Model/Server.vio Model/RunBase.vio Model/RunSrv.vio Model/RunPubSub.vio
+Model/RunScan.vos Model/RunScan.vok Model/RunScan.required_vos: Model/RunScan.v Base/Bytes.vos Model/Resp.vos Model/Types.vos Model/Strings.vos Model/Scan.vos Model/Server.vos Model/RunBase.vos Model/RunSrv.vos Model/RunPubSub.vos
+Model/Run.vo Model/Run.glob Model/Run.v.beautified Model/Run.required_vo: Model/Run.v Base/Bytes.vo Model/Resp.vo Model/RunBase.vo Model/RunSrv.vo Model/RunPubSub.vo Model/RunScan.vo
+Model/Run.vio: Model/Run.v Base/Bytes.vio Model/Resp.vio Model/RunBase.vio Model/RunSrv.vio Model/RunPubSub.vio Model/RunScan.vio
+Model/Run.vos Model/Run.vok Model/Run.required_vos: Model/Run.v Base/Bytes.vos Model/Resp.vos Model/RunBase.vos Model/RunSrv.vos Model/RunPubSub.vos Model/RunScan.vos
 Proofs/BytesFacts.vo Proofs/BytesFacts.glob Proofs/BytesFacts.v.beautified Proofs/BytesFacts.required_vo: Proofs/BytesFacts.v Base/Bytes.vo
 Proofs/BytesFacts.vio: Proofs/BytesFacts.v Base/Bytes.vio
 Proofs/BytesFacts.vos Proofs/BytesFacts.vok Proofs/BytesFacts.required_vos: Proofs/BytesFacts.v Base/Bytes.vos
@@ -49,18 +61,39 @@ Proofs/RespFacts.vos Proofs/RespFacts.vok Proofs/RespFacts.required_vos: Proofs/
 Proofs/StringsFacts.vo Proofs/StringsFacts.glob Proofs/StringsFacts.v.beautified Proofs/StringsFacts.required_vo: Proofs/StringsFacts.v Base/Bytes.vo Model/Resp.vo Model/Types.vo Model/Glob.vo Model/Strings.vo Proofs/BytesFacts.vo
 Proofs/StringsFacts.vio: Proofs/StringsFacts.v Base/Bytes.vio Model/Resp.vio Model/Types.vio Model/Glob.vio Model/Strings.vio Proofs/BytesFacts.vio
 Proofs/StringsFacts.vos Proofs/StringsFacts.vok Proofs/StringsFacts.required_vos: Proofs/StringsFacts.v Base/Bytes.vos Model/Resp.vos Model/Types.vos Model/Glob.vos Model/Strings.vos Proofs/BytesFacts.vos
-Proofs/ListsFacts.vo Proofs/ListsFacts.glob Proofs/ListsFacts.v.beautified Proofs/ListsFacts.required_vo: Proofs/ListsFacts.v Base/Bytes.vo Model/Resp.vo Model/Types.vo Model/Strings.vo Model/Lists.vo Spec/Collections.vo Proofs/BytesFacts.vo Proofs/StringsFacts.vo
-Proofs/ListsFacts.vio: Proofs/ListsFacts.v Base/Bytes.vio Model/Resp.vio Model/Types.vio Model/Strings.vio Model/Lists.vio Spec/Collections.vio Proofs/BytesFacts.vio Proofs/StringsFacts.vio
-Proofs/ListsFacts.vos Proofs/ListsFacts.vok Proofs/ListsFacts.required_vos: Proofs/ListsFacts.v Base/Bytes.vos Model/Resp.vos Model/Types.vos Model/Strings.vos Model/Lists.vos Spec/Collections.vos Proofs/BytesFacts.vos Proofs/StringsFacts.vos
-Proofs/MixedFacts.vo Proofs/MixedFacts.glob Proofs/MixedFacts.v.beautified Proofs/MixedFacts.required_vo: Proofs/MixedFacts.v Base/Bytes.vo Model/Resp.vo Model/Types.vo Model/Strings.vo Model/Lists.vo Spec/Collections.vo Proofs/BytesFacts.vo Proofs/ListsFacts.vo
-Proofs/MixedFacts.vio: Proofs/MixedFacts.v Base/Bytes.vio Model/Resp.vio Model/Types.vio Model/Strings.vio Model/Lists.vio Spec/Collections.vio Proofs/BytesFacts.vio Proofs/ListsFacts.vio
-Proofs/MixedFacts.vos Proofs/MixedFacts.vok Proofs/MixedFacts.required_vos: Proofs/MixedFacts.v Base/Bytes.vos Model/Resp.vos Model/Types.vos Model/Strings.vos Model/Lists.vos Spec/Collections.vos Proofs/BytesFacts.vos Proofs/ListsFacts.vos
+Proofs/ServerFacts.vo Proofs/ServerFacts.glob Proofs/ServerFacts.v.beautified Proofs/ServerFacts.required_vo: Proofs/ServerFacts.v Base/Bytes.vo Generated.vo Model/Resp.vo Model/Types.vo Model/Glob.vo Model/Strings.vo Model/Lists.vo Model/ZSets.vo Model/Streams.vo Model/Server.vo Proofs/BytesFacts.vo Proofs/StringsFacts.vo
+Proofs/ServerFacts.vio: Proofs/ServerFacts.v Base/Bytes.vio Generated.vio Model/Resp.vio Model/Types.vio Model/Glob.vio Model/Strings.vio Model/Lists.vio Model/ZSets.vio Model/Streams.vio Model/Server.vio Proofs/BytesFacts.vio Proofs/StringsFacts.vio
+Proofs/ServerFacts.vos Proofs/ServerFacts.vok Proofs/ServerFacts.required_vos: Proofs/ServerFacts.v Base/Bytes.vos Generated.vos Model/Resp.vos Model/Types.vos Model/Glob.vos Model/Strings.vos Model/Lists.vos Model/ZSets.vos Model/Streams.vos Model/Server.vos Proofs/BytesFacts.vos Proofs/StringsFacts.vos
+Proofs/PsGlobFacts.vo Proofs/PsGlobFacts.glob Proofs/PsGlobFacts.v.beautified Proofs/PsGlobFacts.required_vo: Proofs/PsGlobFacts.v Base/Bytes.vo Model/Types.vo Model/PubSub.vo Proofs/BytesFacts.vo
+Proofs/PsGlobFacts.vio: Proofs/PsGlobFacts.v Base/Bytes.vio Model/Types.vio Model/PubSub.vio Proofs/BytesFacts.vio
+Proofs/PsGlobFacts.vos Proofs/PsGlobFacts.vok Proofs/PsGlobFacts.required_vos: Proofs/PsGlobFacts.v Base/Bytes.vos Model/Types.vos Model/PubSub.vos Proofs/BytesFacts.vos
+Proofs/PubSubFacts.vo Proofs/PubSubFacts.glob Proofs/PubSubFacts.v.beautified Proofs/PubSubFacts.required_vo: Proofs/PubSubFacts.v Base/Bytes.vo Model/Types.vo Model/PubSub.vo Proofs/BytesFacts.vo Proofs/PsGlobFacts.vo
+Proofs/PubSubFacts.vio: Proofs/PubSubFacts.v Base/Bytes.vio Model/Types.vio Model/PubSub.vio Proofs/BytesFacts.vio Proofs/PsGlobFacts.vio
+Proofs/PubSubFacts.vos Proofs/PubSubFacts.vok Proofs/PubSubFacts.required_vos: Proofs/PubSubFacts.v Base/Bytes.vos Model/Types.vos Model/PubSub.vos Proofs/BytesFacts.vos Proofs/PsGlobFacts.vos
+Proofs/ScanFacts.vo Proofs/ScanFacts.glob Proofs/ScanFacts.v.beautified Proofs/ScanFacts.required_vo: Proofs/ScanFacts.v Base/Bytes.vo Model/Resp.vo Model/Types.vo Model/Glob.vo Model/Strings.vo Model/Scan.vo Proofs/BytesFacts.vo
+Proofs/ScanFacts.vio: Proofs/ScanFacts.v Base/Bytes.vio Model/Resp.vio Model/Types.vio Model/Glob.vio Model/Strings.vio Model/Scan.vio Proofs/BytesFacts.vio
+Proofs/ScanFacts.vos Proofs/ScanFacts.vok Proofs/ScanFacts.required_vos: Proofs/ScanFacts.v Base/Bytes.vos Model/Resp.vos Model/Types.vos Model/Glob.vos Model/Strings.vos Model/Scan.vos Proofs/BytesFacts.vos
 Props/C20.vo Props/C20.glob Props/C20.v.beautified Props/C20.required_vo: Props/C20.v Base/Bytes.vo Model/Resp.vo Proofs/BytesFacts.vo Proofs/RespFacts.vo
 Props/C20.vio: Props/C20.v Base/Bytes.vio Model/Resp.vio Proofs/BytesFacts.vio Proofs/RespFacts.vio
 Props/C20.vos Props/C20.vok Props/C20.required_vos: Props/C20.v Base/Bytes.vos Model/Resp.vos Proofs/BytesFacts.vos Proofs/RespFacts.vos
 Props/C01.vo Props/C01.glob Props/C01.v.beautified Props/C01.required_vo: Props/C01.v Base/Bytes.vo Model/Resp.vo Model/Types.vo Model/Glob.vo Model/Strings.vo Proofs/BytesFacts.vo Proofs/StringsFacts.vo
 Props/C01.vio: Props/C01.v Base/Bytes.vio Model/Resp.vio Model/Types.vio Model/Glob.vio Model/Strings.vio Proofs/BytesFacts.vio Proofs/StringsFacts.vio
 Props/C01.vos Props/C01.vok Props/C01.required_vos: Props/C01.v Base/Bytes.vos Model/Resp.vos Model/Types.vos Model/Glob.vos Model/Strings.vos Proofs/BytesFacts.vos Proofs/StringsFacts.vos
-Props/C03.vo Props/C03.glob Props/C03.v.beautified Props/C03.required_vo: Props/C03.v Base/Bytes.vo Model/Resp.vo Model/Types.vo Model/Strings.vo Model/Lists.vo Spec/Collections.vo Proofs/BytesFacts.vo Proofs/ListsFacts.vo Proofs/MixedFacts.vo Proofs/StringsFacts.vo
-Props/C03.vio: Props/C03.v Base/Bytes.vio Model/Resp.vio Model/Types.vio Model/Strings.vio Model/Lists.vio Spec/Collections.vio Proofs/BytesFacts.vio Proofs/ListsFacts.vio Proofs/MixedFacts.vio Proofs/StringsFacts.vio
-Props/C03.vos Props/C03.vok Props/C03.required_vos: Props/C03.v Base/Bytes.vos Model/Resp.vos Model/Types.vos Model/Strings.vos Model/Lists.vos Spec/Collections.vos Proofs/BytesFacts.vos Proofs/ListsFacts.vos Proofs/MixedFacts.vos Proofs/StringsFacts.vos
+Props/C17.vo Props/C17.glob Props/C17.v.beautified Props/C17.required_vo: Props/C17.v Base/Bytes.vo Generated.vo Model/Resp.vo Model/Types.vo Model/Server.vo Proofs/ServerFacts.vo
+Props/C17.vio: Props/C17.v Base/Bytes.vio Generated.vio Model/Resp.vio Model/Types.vio Model/Server.vio Proofs/ServerFacts.vio
+Props/C17.vos Props/C17.vok Props/C17.required_vos: Props/C17.v Base/Bytes.vos Generated.vos Model/Resp.vos Model/Types.vos Model/Server.vos Proofs/ServerFacts.vos
+Props/C18.vo Props/C18.glob Props/C18.v.beautified Props/C18.required_vo: Props/C18.v Base/Bytes.vo Generated.vo Model/Resp.vo Model/Types.vo Model/Server.vo Proofs/ServerFacts.vo
+Props/C18.vio: Props/C18.v Base/Bytes.vio Generated.vio Model/Resp.vio Model/Types.vio Model/Server.vio Proofs/ServerFacts.vio
+Props/C18.vos Props/C18.vok Props/C18.required_vos: Props/C18.v Base/Bytes.vos Generated.vos Model/Resp.vos Model/Types.vos Model/Server.vos Proofs/ServerFacts.vos
+Props/C07.vo Props/C07.glob Props/C07.v.beautified Props/C07.required_vo: Props/C07.v Base/Bytes.vo Generated.vo Model/Resp.vo Model/Types.vo Model/Server.vo Proofs/ServerFacts.vo
+Props/C07.vio: Props/C07.v Base/Bytes.vio Generated.vio Model/Resp.vio Model/Types.vio Model/Server.vio Proofs/ServerFacts.vio
+Props/C07.vos Props/C07.vok Props/C07.required_vos: Props/C07.v Base/Bytes.vos Generated.vos Model/Resp.vos Model/Types.vos Model/Server.vos Proofs/ServerFacts.vos
+Props/C08.vo Props/C08.glob Props/C08.v.beautified Props/C08.required_vo: Props/C08.v Base/Bytes.vo Generated.vo Model/Resp.vo Model/Types.vo Model/Server.vo Proofs/ServerFacts.vo
+Props/C08.vio: Props/C08.v Base/Bytes.vio Generated.vio Model/Resp.vio Model/Types.vio Model/Server.vio Proofs/ServerFacts.vio
+Props/C08.vos Props/C08.vok Props/C08.required_vos: Props/C08.v Base/Bytes.vos Generated.vos Model/Resp.vos Model/Types.vos Model/Server.vos Proofs/ServerFacts.vos
+Props/C14.vo Props/C14.glob Props/C14.v.beautified Props/C14.required_vo: Props/C14.v Base/Bytes.vo Model/Types.vo Model/PubSub.vo Proofs/PsGlobFacts.vo Proofs/PubSubFacts.vo
+Props/C14.vio: Props/C14.v Base/Bytes.vio Model/Types.vio Model/PubSub.vio Proofs/PsGlobFacts.vio Proofs/PubSubFacts.vio
+Props/C14.vos Props/C14.vok Props/C14.required_vos: Props/C14.v Base/Bytes.vos Model/Types.vos Model/PubSub.vos Proofs/PsGlobFacts.vos Proofs/PubSubFacts.vos
+Props/C19.vo Props/C19.glob Props/C19.v.beautified Props/C19.required_vo: Props/C19.v Base/Bytes.vo Model/Resp.vo Model/Types.vo Model/Glob.vo Model/Strings.vo Model/Scan.vo Proofs/ScanFacts.vo
+Props/C19.vio: Props/C19.v Base/Bytes.vio Model/Resp.vio Model/Types.vio Model/Glob.vio Model/Strings.vio Model/Scan.vio Proofs/ScanFacts.vio
+Props/C19.vos Props/C19.vok Props/C19.required_vos: Props/C19.v Base/Bytes.vos Model/Resp.vos Model/Types.vos Model/Glob.vos Model/Strings.vos Model/Scan.vos Proofs/ScanFacts.vos
